@@ -1054,6 +1054,7 @@ Proof.
     cbn [found_file] in Hnotself. change (v_file self) with f in *. cbn [v_file].
     replace (strs_eqb file f) with false.
     2:{ symmetry. apply not_true_iff_false. intro E. apply strs_eqb_eq in E. auto. }
+    cbn [andb].
     unfold getattr. cbn [v_path found_attrs found_file search_path].
     destruct (assoc x (file_attrs fs file)); auto.
         rewrite Hfb by auto.
@@ -1064,6 +1065,7 @@ Proof.
     cbn [found_file] in Hnotself. change (v_file self) with f in *. cbn [v_file].
     replace (strs_eqb (d ++ [s_init_py]) f) with false.
     2:{ symmetry. apply not_true_iff_false. intro E. apply strs_eqb_eq in E. auto. }
+    cbn [andb].
     unfold getattr. cbn [v_path found_attrs found_file search_path].
     destruct (assoc x (file_attrs fs (d ++ [s_init_py]))); auto.
     rewrite (Hsubf (VMod (d ++ [s_init_py]) true A) eq_refl).
@@ -1080,6 +1082,7 @@ Proof.
     assert (HP : P fs roots A = Some (VNs A ds)) by (unfold P; rewrite Ef; auto).
     change (v_file self) with f in *. cbn [v_file]. replace (strs_eqb [] f) with false.
     2:{ symmetry. apply not_true_iff_false. intro E. apply strs_eqb_eq in E. auto. }
+    cbn [andb].
     unfold getattr. cbn [v_path found_attrs found_file search_path assoc].
     rewrite (Hsubf (VNs A ds) eq_refl).
     destruct (has_sub fs ds x) eqn:Hsub.
@@ -1142,7 +1145,7 @@ Theorem star_namespace_refuted :
     jedi_query false fs roots self q <> py_query fs roots (importer_of self) q.
 Proof.
   exists fs_star, [[w_r]], [w_r; py_ w_s],
-         {| q_level := 0; q_path := [w_a]; q_name := None; q_probe := Some w_b |}.
+         {| q_level := 0; q_path := [w_a]; q_name := None; q_probe := Some w_b; q_alias := false |}.
   split; [vm_compute; reflexivity|]. split; [left; split; [reflexivity|discriminate]|].
   vm_compute. discriminate.
 Qed.
@@ -1160,7 +1163,7 @@ Theorem shadowed_self_refuted :
     py_query fs roots (importer_of self) q = RFile [w_r1; py_ w_a].
 Proof.
   exists fs_shadow, [[w_r1]; [w_r2]], [w_r2; py_ w_a],
-         {| q_level := 0; q_path := [w_a]; q_name := None; q_probe := None |}.
+         {| q_level := 0; q_path := [w_a]; q_name := None; q_probe := None; q_alias := false |}.
   split; [vm_compute; discriminate|]. repeat split; vm_compute; reflexivity.
 Qed.
 
@@ -1177,7 +1180,7 @@ Theorem ancestor_attribute_refuted :
     jedi_query false fs roots self q <> py_query fs roots (importer_of self) q.
 Proof.
   exists fs_anc, [[w_r]], [w_r; w_p; w_x; py_ w_m],
-         {| q_level := 0; q_path := [w_p]; q_name := Some w_x; q_probe := None |}, w_x.
+         {| q_level := 0; q_path := [w_p]; q_name := Some w_x; q_probe := None; q_alias := false |}, w_x.
   split; [vm_compute; reflexivity|]. split; [left; split; [reflexivity|discriminate]|].
   split; [reflexivity|]. split; [vm_compute; reflexivity|]. vm_compute. discriminate.
 Qed.
@@ -1191,8 +1194,8 @@ Proof. repeat split; vm_compute; reflexivity. Qed.
 
 Example relative_example :
   let self := script_module [[w_r]] [w_r; w_p; w_x; py_ w_m] in
-  let q := {| q_level := 2; q_path := []; q_name := Some w_x; q_probe := None |} in
+  let q := {| q_level := 2; q_path := []; q_name := Some w_x; q_probe := None; q_alias := false |} in
   jedi_query true fs_anc [[w_r]] self q = RAttr [w_r; w_p; s_init_py] w_x true /\
-  py_query fs_anc [[w_r]] (importer_of self) {| q_level := 1; q_path := []; q_name := Some w_m; q_probe := None |}
+  py_query fs_anc [[w_r]] (importer_of self) {| q_level := 1; q_path := []; q_name := Some w_m; q_probe := None; q_alias := false |}
   = RFile [w_r; w_p; w_x; py_ w_m].
 Proof. split; vm_compute; reflexivity. Qed.
